@@ -170,7 +170,11 @@ theorem instantiate_line (ls : Labels) (addr : Int) (k k' : Nat) (line : String)
       rw [ho] at h
       cases hl : lookupLabel ls l with
       | none => rw [hl] at h; cases h
-      | some L => rw [hl] at h; exact h
+      | some L =>
+        rw [hl] at h
+        by_cases hodd : (L + off - addr) % 2 ≠ 0
+        · simp only [if_pos hodd] at h; cases h
+        · simp only [if_neg hodd] at h ⊢; exact h
   | mem mn a imm b =>
     simp only [instantiate] at h ⊢
     cases ho : Op.ofMnemonic mn with
@@ -213,7 +217,11 @@ theorem instantiate_line (ls : Labels) (addr : Int) (k k' : Nat) (line : String)
     simp only [instantiate, labelDisp] at h ⊢
     cases hl : lookupLabel ls l with
     | none => rw [hl] at h; cases h
-    | some L => rw [hl] at h; exact h
+    | some L =>
+      rw [hl] at h
+      by_cases hodd : (L + off - addr) % 2 ≠ 0
+      · simp only [if_pos hodd] at h; cases h
+      · simp only [if_neg hodd] at h ⊢; exact h
   | memPseudo mn r v i => simp only [instantiate] at h; cases h
   | sPseudo mn r v i r2 => simp only [instantiate] at h; cases h
   | li rd imm => simp only [instantiate] at h; cases h
